@@ -43,6 +43,7 @@ def setup():
   CONF = pm._H['CONF']  # pylint: disable=protected-access
   if 'vf_c09_run_marker' not in CONF._declarations:  # pylint: disable=protected-access
     CONF.declare('vf_c09_run_marker', default_value='unset')
+    CONF.declare('vf_c09_mutable', default_value=None)
 
 
 def _p(pid, **beh):
@@ -482,6 +483,10 @@ def run_history(case):
       del calls[:]
       config_before = CONF._asdict()  # pylint: disable=protected-access
       conf['vf_c09_run_marker'] = 'run-%d' % run
+      # a mutable configuration value (as loaded from a YAML file); it is
+      # changed in place after the run: the record keeps the snapshot
+      mutable = {'list': [run], 'nested': {'k': run}}
+      conf['vf_c09_mutable'] = mutable
       # the test is renamed between runs: the record carries the current name
       run_name = 'vf_test_name' if run == 0 else 'vf_test_name_run%d' % run
       t.configure(name=run_name)
@@ -533,12 +538,19 @@ def run_history(case):
       if rec.metadata.get('test_name') != run_name:
         bad('metadata-test-name-wrong', **ctx, got=rec.metadata.get('test_name'),
             want=run_name)
+      mutable['list'].append('changed-after-the-run')
+      mutable['nested']['k'] = 'changed-after-the-run'
       snap = rec.metadata.get('config')
+      if isinstance(snap, dict) and snap.get('vf_c09_mutable') != {
+          'list': [run], 'nested': {'k': run}}:
+        bad('metadata-config-snapshot-not-a-copy', **ctx,
+            got=repr(snap.get('vf_c09_mutable'))[:120])
       if not isinstance(snap, dict):
         bad('metadata-config-missing', **ctx)
       else:
         want_conf = dict(config_before)
         want_conf.update(conf)
+        want_conf.pop('vf_c09_mutable', None)     # judged above
         for k, v in want_conf.items():
           if snap.get(k, '<absent>') != v:
             bad('metadata-config-differs', **ctx, key=k)
